@@ -40,9 +40,9 @@ def items(tier):
         out.append({"name": "inner|h%d|%s|din%d|dout%d|npd%d|copied=%s" % (hid, act, din, dout, npd, copied), "kind": "inner",
                     "hid": hid, "act": act, "din": din, "dout": dout, "npd": npd, "copied": copied, "tier": tier})
     # the convolutional branch net (a length-preserving Conv1d in front of the fully connected layers)
-    for act, din, dout, copied in itertools.product(("tanh", "mixed"), (1, 2), (1, 2), (True, False)):
-        out.append({"name": "inner|conv|h0|%s|din%d|dout%d|npd2|copied=%s" % (act, din, dout, copied), "kind": "inner", "branch": "conv",
-                    "hid": 0, "act": act, "din": din, "dout": dout, "npd": 2, "copied": copied, "tier": tier})
+    for act, din, dout, copied, edim in itertools.product(("tanh", "mixed"), (1, 2), (1, 2), (True, False), (1, 2)):
+        out.append({"name": "inner|conv|e%d|h0|%s|din%d|dout%d|npd2|copied=%s" % (edim, act, din, dout, copied), "kind": "inner", "branch": "conv",
+                    "edim": edim, "hid": 0, "act": act, "din": din, "dout": dout, "npd": 2, "copied": copied, "tier": tier})
     for hid, act, din, dout in itertools.product(range(len(BOUNDS[tier]["hidden"])), ("tanh", "sin", "mixed"), (1, 2), (1, 2)):
         out.append({"name": "fastpath|h%d|%s|din%d|dout%d" % (hid, act, din, dout), "kind": "fast", "hid": hid, "act": act,
                     "din": din, "dout": dout, "tier": tier, "cost": 3})
@@ -60,15 +60,15 @@ def acts_of(act, hidden):
     return [nn.Tanh() if act == "tanh" else Sin() for _ in hidden]
 
 
-def make_net(hidden, act, din, dout, npd, copied, seed, branch_kind="fc"):
+def make_net(hidden, act, din, dout, npd, copied, seed, branch_kind="fc", edim=1):
     torch.manual_seed(seed)
     a = acts_of(act, hidden)
     T = Space({"t": 1})
-    fs = FunctionSpace(Interval(T, 0, 1), Space({"e": 1}))
+    fs = FunctionSpace(Interval(T, 0, 1), Space({"e": edim}))
     sampler = GridSampler(fs.input_domain, K).make_static()
     trunk = FCTrunkNet(Space({"x": din}), hidden=tuple(hidden), activations=a, trunk_input_copied=copied)
     if branch_kind == "conv":
-        conv = nn.Conv1d(1, 1, kernel_size=3, padding=1)
+        conv = nn.Conv1d(edim, edim, kernel_size=3, padding=1)
         branch = ConvBranchNet1D(fs, discretization_sampler=sampler, convolutional_network=conv, hidden=tuple(hidden), activations=a)
     else:
         branch = FCBranchNet(fs, discretization_sampler=sampler, hidden=tuple(hidden), activations=a)
@@ -92,10 +92,12 @@ def seq_ref(seq, x, acts=None):
     return x
 
 
-def fn_values(ks, tgrid):
-    """the input functions f_k(t) = sin(3 k t) + k on the discretisation grid -> (F, K, 1)"""
+def fn_values(ks, tgrid, edim=1):
+    """the input functions f_k(t) = sin(3 k t) + k (second component: cos(2 k t) - t) on the discretisation grid -> (F, K, edim)"""
     k = torch.tensor(ks, dtype=torch.float32).reshape(-1, 1, 1)
-    return torch.sin(3 * k * tgrid.reshape(1, -1, 1)) + k
+    t = tgrid.reshape(1, -1, 1)
+    first = torch.sin(3 * k * t) + k
+    return first if edim == 1 else torch.cat([first, torch.cos(2 * k * t) - t], -1)
 
 
 def locations(J, din, F=None):
@@ -116,15 +118,17 @@ def run_item(item):
     if item["kind"] == "inner":
         hidden = BOUNDS[tier]["hidden"][item["hid"]]
         din, dout, npd, copied = item["din"], item["dout"], item["npd"], item["copied"]
-        net, fs, sampler = make_net(hidden, item["act"], din, dout, npd, copied, seed=11 + item["hid"], branch_kind=item.get("branch", "fc"))
+        edim = item.get("edim", 1)
+        net, fs, sampler = make_net(hidden, item["act"], din, dout, npd, copied, seed=11 + item["hid"], branch_kind=item.get("branch", "fc"), edim=edim)
         tgrid = sampler.sample_points().as_tensor[:, 0]
         for F in (1, 2, 3):
             ks = list(np.linspace(0, 1, F + 2)[1:-1])
-            vals = fn_values(ks, tgrid)                      # (F,K,1)
-            forms = [("tensor3d", vals.clone()), ("points3d", Points(vals.clone(), Space({"e": 1})))]
-            pset = CustomFunctionSet(fs, GridSampler(Interval(Space({"k": 1}), 0, 1), F), lambda k, t: torch.sin(3 * k * t) + k)
+            vals = fn_values(ks, tgrid, edim)                # (F,K,edim)
+            forms = [("tensor3d", vals.clone()), ("points3d", Points(vals.clone(), Space({"e": edim})))]
+            fn_k = (lambda k, t: torch.sin(3 * k * t) + k) if edim == 1 else (lambda k, t: torch.cat([torch.sin(3 * k * t) + k, torch.cos(2 * k * t) - t], -1))
+            pset = CustomFunctionSet(fs, GridSampler(Interval(Space({"k": 1}), 0, 1), F), fn_k)
             forms.append(("functionset", pset))
-            if F >= 2:
+            if F >= 2 and edim == 1:
                 # the same functions supplied as a SUM of two function sets (first one function, then the rest)
                 from torchphysics.problem.samplers import DataSampler
                 def pset_of(kk):
@@ -134,22 +138,25 @@ def run_item(item):
                 s_own = pset_of(ks[:1]) + pset_of(ks[1:])
                 _larger = s_own + pset_of([0.123])
                 forms.append(("functionset-sum-reused", s_own))
-            if F >= 3:
+            if F >= 3 and edim == 1:
                 forms.append(("functionset-sum3", (pset_of(ks[:1]) + pset_of(ks[1:2])) + pset_of(ks[2:])))
-            if F == 1:
+            if F == 1 and edim == 1:
                 k0 = float(ks[0])
                 forms += [("callable", lambda t, k0=k0: torch.sin(3 * k0 * t) + k0), ("tensor2d", vals[0].clone()),
                           ("points2d", Points(vals[0].clone(), Space({"e": 1})))]
             for J in (1, 3):
                 x0 = locations(J, din)
                 for form, binp in forms:
-                    for xform in ("2d", "3d-one", "3d-rep"):
+                    for xform in ("2d", "3d-one", "3d-rep") + (("3d-diff",) if (not copied and F >= 2) else ()):
                         if xform == "2d":
                             x = x0
                         elif xform == "3d-one":
                             x = x0.unsqueeze(0)
-                        else:
+                        elif xform == "3d-rep":
                             x = x0.unsqueeze(0).repeat(F, 1, 1)
+                        else:
+                            # every function has its OWN locations (allowed when the trunk input is not declared as copied)
+                            x = torch.stack([x0 + 0.13 * (i + 1) for i in range(F)])
                         cfg = "F=%d J=%d branch_input=%s trunk_input=%s" % (F, J, form, xform)
                         res["states"].append(item["name"] + "|" + cfg)
                         res["evals"] += 1
@@ -161,16 +168,24 @@ def run_item(item):
                             viol("C09|error|%s|forward|%s" % (type(e).__name__, form), "%s raised %s: %s" % (cfg, type(e).__name__, str(e)[:120]))
                             continue
                         with torch.no_grad():
-                            bin_ = vals.reshape(F, K)
+                            bin_ = vals.reshape(F, K * edim)
                             if item.get("branch") == "conv":
                                 # the convolution sees (function, channel, discretisation point); its result is flattened again
                                 cv = net.branch.conv_net
-                                bin_ = Fn.conv1d(vals.permute(0, 2, 1), cv.weight, cv.bias, padding=1).permute(0, 2, 1).reshape(F, K)
+                                bin_ = Fn.conv1d(vals.permute(0, 2, 1), cv.weight, cv.bias, padding=1).permute(0, 2, 1).reshape(F, K * edim)
                             B = seq_ref(net.branch.sequential, bin_, acts_of(item["act"], hidden)).reshape(F, dout, npd)
                             Tt = seq_ref(net.trunk.sequential, x0, acts_of(item["act"], hidden)).reshape(J, dout, npd)
                             exp = torch.einsum("icn,jcn->ijc", B, Tt)
+                            if xform == "3d-diff":
+                                Ti = torch.stack([seq_ref(net.trunk.sequential, x[i], acts_of(item["act"], hidden)).reshape(J, dout, npd) for i in range(F)])
+                                exp_own = torch.einsum("icn,ijcn->ijc", B, Ti)
                         if tuple(out.shape) != (F, J, dout):
                             viol("C09|shape|%s" % xform, "%s: output shape %s, expected %s" % (cfg, tuple(out.shape), (F, J, dout)))
+                            continue
+                        if xform == "3d-diff":
+                            if not torch.allclose(out, exp_own, rtol=1e-5, atol=1e-6):
+                                viol("C09|inner-product|own-locations|%s" % form, "%s: with different locations per function, output[i,j] differs from <branch(f_i), trunk(x[i,j])> (max error %.3g)" % (
+                                    cfg, float((out - exp_own).abs().max())))
                             continue
                         if not torch.allclose(out, exp, rtol=1e-5, atol=1e-6):
                             i = (out - exp).abs().argmax()
